@@ -68,6 +68,8 @@ def judge(ctx: Ctx, runs: list[dict], tag: str) -> tuple[dict[int, tuple[int, st
 
 
 def variant_of(desc: dict) -> str:
+    if "env_stop" in desc:
+        return "forced-schedule" + ("+fault" if desc.get("fault") else "") + ("+stop" if desc.get("env_stop") else "")
     if desc.get("fault"):
         return "fault:%s:%s" % (desc["fault"]["site"], desc["fault"]["exc"])
     if desc.get("stop_at"):
@@ -163,6 +165,57 @@ def variants(base: dict, ref: dict, recipe: dict, rng: random.Random) -> list[di
     return out
 
 
+def _run_sched(item: dict) -> dict:
+    from . import sched
+    from .engine_driver import run_one
+
+    try:
+        ctrl = sched.Scheduler([tuple(x) for x in item["steps"]], fault=item["desc"].get("fault"))
+        run = run_one(item["desc"], controller=ctrl)
+        run["origin"] = item["origin"]
+        return run
+    except BaseException as exc:
+        return {"hdr": None, "lines": [], "desc": item["desc"], "machinery": repr(exc)}
+
+
+def schedule_items(ctx: Ctx, n_sim: int) -> tuple[list[dict], dict]:
+    """Behaviours of Engine.tla -> forced schedules: counterexamples of the old (defective) designs + simulated behaviours."""
+    import glob
+    import os
+
+    from . import sched
+
+    items: list[dict] = []
+    info: dict = {"attack_schedules": 0, "simulated": 0}
+    # (a) attack schedules: what TLC finds when the spec is switched back to the old design of the code
+    for cfg, nops in (("Engine_olddrain.cfg", 2),):
+        res = tlc.require_ok(tlc.run_tlc("Engine", cfg, timeout=600), "old design " + cfg)
+        if not res.violated:
+            raise tlc.TLCFailure("%s: the old design is expected to violate the property in the model" % cfg)
+        beh = sched.parse_counterexample(res.counterexample)
+        steps, more = sched.skeleton(beh, nops)
+        items.append({"steps": steps, "origin": "counterexample:" + cfg,
+                      "desc": {"ops": more["ops"], "links": False, "phases": ["fuzzing"], "workers": 2, "max_examples": 1, "seed": 1,
+                               "max_failures": 0, "fault": more["fault"], "env_stop": more["stopped"]}})
+        info["attack_schedules"] += 1
+    # (b) simulated behaviours of the current design
+    for cfg, mf in (("Engine_sim.cfg", 0), ("Engine_sim_mf.cfg", 1)):
+        d = ctx.path("sim_" + cfg)
+        os.makedirs(d, exist_ok=True)
+        tlc.require_ok(tlc.run_tlc("Engine", cfg, workers=1, simulate="file=%s/tr,num=%d" % (d, n_sim // 2), depth=90, seed=ctx.seed + 11,
+                                   timeout=600, want_prints=False), "simulation " + cfg)
+        for f in sorted(glob.glob(d + "/tr_*")):
+            beh = sched.parse_behaviour(f)
+            if not beh or beh[-1][0] != "P_Finish":
+                continue   # behaviour cut by -depth before the run ended
+            steps, more = sched.skeleton(beh, 2)
+            items.append({"steps": steps, "origin": "simulate:" + cfg,
+                          "desc": {"ops": more["ops"], "links": False, "phases": ["fuzzing"], "workers": 2, "max_examples": 1, "seed": 1,
+                                   "max_failures": mf, "fault": more["fault"], "env_stop": more["stopped"]}})
+            info["simulated"] += 1
+    return items, info
+
+
 def run_property(ctx: Ctx, pid: str, design_cfgs: list[str]) -> Outcome:
     out = Outcome()
     rng = random.Random(ctx.seed * 7919 + int(pid[1:]))
@@ -197,7 +250,18 @@ def run_property(ctx: Ctx, pid: str, design_cfgs: list[str]) -> Outcome:
     for r in disturbed:
         if r.get("machinery"):
             raise RuntimeError("engine driver failed: %s on %s" % (r["machinery"], r["desc"]))
-    runs = refs + disturbed
+    # 3b. forced schedules (spec -> code for interleavings)
+    items, sinfo = schedule_items(ctx, 40 if ctx.quick else 400)
+    forced = common.pmap(_run_sched, items, chunk=1) if len(items) >= 32 else [_run_sched(i) for i in items]
+    for r in forced:
+        if r.get("machinery"):
+            raise RuntimeError("scheduled run failed: %s on %s" % (r["machinery"], r["desc"]))
+    sinfo["diverged"] = sum(1 for r in forced if r["hdr"]["diverged"])
+    sinfo["steps_followed"] = sum(r["hdr"]["followed"] for r in forced)
+    if sinfo["diverged"]:
+        out.notes.append("%d forced schedule(s) could not be followed by the implementation (replay divergence, e.g. %s)" % (
+            sinfo["diverged"], next(r["hdr"]["diverged"] for r in forced if r["hdr"]["diverged"])))
+    runs = refs + disturbed + forced
     t_runs = time.time() - t1
     # 4. trace validation
     rejected, accepted, jres = judge(ctx, runs, pid)
@@ -230,6 +294,7 @@ def run_property(ctx: Ctx, pid: str, design_cfgs: list[str]) -> Outcome:
                 "every/sampled stop position, Ctrl-C position and single fault per the recipe of %s; non-trivial = run with a bad API answer or a disturbance" % (len(fam), pid),
         "exhaustive": False,
         "design_models": design,
+        "forced_schedules": sinfo,
         "family_size": len(fam), "base_descriptors": len(plain), "disturbed_runs": len(todo), "faults_fired": fired,
         "accepted": len(accepted), "rejected_own": own, "rejected_foreign": sum(foreign.values()),
         "trace_lines": sum(len(r["lines"]) for r in runs), "judge_states": jres.distinct,
